@@ -14,7 +14,7 @@ RULE = ('as C05, histories biased to fix/free: get_all_discrete_x under fixed va
         'the original ones; non-trivial = history of at least 2 executed operations')
 TRUSTED = ['rows are compared in -1 form (inactive entries), continuous entries as 0']
 PARTIAL = ['fixing connection-choice variables (must be rejected) is covered with the connection machinery']
-batches = _ops.make_batches('C15', 150, 2500, n_ops=(8, 14))
+batches = _ops.make_batches('C15', 600, 6000, n_ops=(8, 14))
 run_case = _ops.make_run_case(CLAUSES)
 compare = _ops.compare
 shrink_candidates = _ops.shrink_candidates
